@@ -118,7 +118,8 @@ def all_dags_rules(rep, prog):
     und = call("only_undirected", P=pd)
     if len(apps) == 1 and cand_list is not None and cand_list[0] == "after":
         v = apps[0].args[0]
-        ok = v[0] == "store" and v[1] == ("method", pd, "copy", (), ()) and is_const(v[3], 0) and v[4] is None and mentions(v[2], und) and \
+        und_list = ("call", U + "undirected_edges", (pd,), (("P", pd),))         # the library's own list of these positions (C16 decides what it holds)
+        ok = v[0] == "store" and v[1] == ("method", pd, "copy", (), ()) and is_const(v[3], 0) and v[4] is None and (mentions(v[2], und) or mentions(v[2], und_list)) and \
             apps[0].recv == ("mu", cand_list[1], cand_list[2])
         why = fmt(v)[:100]
     rep.check("FILTER.candidates", ok, fwhere(f, apps[0].node if apps else None), "candidate = pdag.copy() with entries of undirected edges set to 0 (nothing added, directed part untouched)",
@@ -246,6 +247,41 @@ def chain_rules(rep, prog):
     summ, _ = run_function(S, f)
     loops = sorted([(k, v) for k, v in S.loopinfo.items() if v["func"] == q], key=lambda kv: kv[0][1])
     p = ("param", "p")
+    if len(loops) == 1 and loops[0][1]["iter"] == ("ext", "range", (p,), ()):
+        # the two inner loops written as index-array stores: A[J, J - 1] = 1 with J = arange(1, i + 1); A[J, J + 1] = 1 with J = arange(i, p - 1)
+        lo, lout = loops[0]
+        i = ("elem", lout["iter"])
+        spans = []
+        sts = [s_ for s_ in S.select("store", qname=q) if lo in s_.loops]
+        for s_ in sts:
+            if not (s_.idx[0] == "tuple" and len(s_.idx[1]) == 2 and is_const(s_.value, 1) and s_.aug is None):
+                spans.append(("?", fmt(s_.idx)[:60]))
+                continue
+            r, c = s_.idx[1]
+            ar = lambda a_, b_: [("ext", "numpy.arange", (a_, b_), ()), ("ext", "numpy.array", (("ext", "range", (a_, b_), ()),), ()), ("ext", "list", (("ext", "range", (a_, b_), ()),), ())]
+            if r in ar(("const", 1), ("binop", "+", i, ("const", 1))) and c == ("binop", "-", r, ("const", 1)):
+                spans.append(("back", 0, "i-1"))
+            elif r in ar(i, ("binop", "-", p, ("const", 1))) and c == ("binop", "+", r, ("const", 1)):
+                spans.append(("fwd", "i", "p-2"))
+            else:
+                spans.append(("?", fmt(s_.idx)[:80]))
+        if any(sp[0] == "?" for sp in spans) and not any(sp[0] != "?" for sp in spans):
+            rep.unk("CHAIN.partition", fwhere(f), "chain edges are stored in a vectorised form these rules do not read: %s" % (spans,))
+            return
+        rep.check("CHAIN.partition", sorted(sp[0] for sp in spans) == ["back", "fwd"], fwhere(f),
+                  "root i: edges j->j-1 for j in [1,i] and j->j+1 for j in [i,p-2] (index-array stores); lower endpoints [0,i-1] ∪ [i,p-2] = all p-1 chain edges, once each",
+                  "chain edges are not partitioned into backward [0,i-1] and forward [i,p-2] halves: %s" % (spans,))
+        apps = [c for c in S.select("call", qname=q) if c.callkind == "method" and c.target == ".append"]
+        zeros = ("ext", "numpy.zeros", (("tuple", (p, p)),), ())
+        bases = set()
+        for s_ in sts:
+            b_ = s_.base
+            while isinstance(b_, tuple) and b_[0] == "store":
+                b_ = b_[1]
+            bases.add(b_)
+        rep.check("CHAIN.roots", len(apps) == 1 and apps[0].loops == (lo,) and bases == {zeros}, fwhere(f), "one fresh zero p x p matrix per root, appended once",
+                  "graphs are not built from a fresh zero matrix once per root")
+        return
     if len(loops) != 3:
         rep.unk("CHAIN.partition", fwhere(f), "chain enumeration is no longer three nested range loops; the interval rule does not read this idiom")
         return
